@@ -317,3 +317,17 @@ package tchannel
 // (written with ite: a nil interface has no identity of its own in the engine's model)
 //@   defines handed(mutatedChecksum) == ite(mutatedChecksum != nil, 0, old(handed(mutatedChecksum)))
 //@   property C08
+
+// (C09) "After the call ... the relay holds no item or pending count for it":
+// Receive has stopped the item's timeout when it looks up a final frame, so when
+// it then refuses the frame it must fail the item ITSELF (its caller only fails
+// the item of the other connection) -- the one exception is an id it does not
+// know. failedhere(r): failRelayItem was the last thing done on r (volatile).
+//@ ghostfield failedhere volatile
+//@ func (r *Relayer) failRelayItem(items *relayItems, id uint32, reason string, err error)
+//@   defines failedhere(r) == 1
+//@   property C09
+//@ func (r *Relayer) Receive(f *Frame, fType frameType) (sent bool, failureReason string)
+//@   label a-refused-frame-fails-its-item-here
+//@   ensures !sent && failureReason != _relayErrorNotFound ==> failedhere(r) == 1
+//@   property C09
